@@ -138,7 +138,7 @@ impl Check for CanonCheck {
         // a third of the runs carry the simulator's analysis (min size / depth / height): worklist
         // entries then come in two kinds (analysis-only and full) and data changes re-queue parents
         if run.get("analysis") != 0 {
-            self.exec_with(run, EGraph::new(crate::analysis::SimAn { p: 3, modify: false }))
+            self.exec_with(run, EGraph::new(crate::analysis::SimAn { p: 3, modify: run.get("analysis") == 2 }))
         } else {
             self.exec_with(run, EGraph::new(()))
         }
@@ -152,6 +152,7 @@ impl CanonCheck {
         let mut s: Sess<LS, N> = Sess::new(eg, run.get("naming") as u32);
         let n = pool_size(&run.ops);
         let mut ctx = CcCtx::new(n);
+        ctx.unit_schema = run.get("analysis") == 2;
         let mut any_change = false;
         for (k, op) in run.ops.iter().enumerate() {
             s.cur_op = k;
@@ -174,7 +175,7 @@ impl CanonCheck {
                 _ => {}
             }
         }
-        ctx.cc.close();
+        ctx.close();
         let alphabet = max_name(&run.ops).max(2);
         let mut crng = Rng::stream(run.get("cand_seed") as u64, "candidates");
         let nt = s.tracked.len();
